@@ -750,3 +750,30 @@ def r10_6(ctx, rr):
             rr.ob(ok, key=key, sample={"fn": b.key, "shift": show(F, n)[:80], "needs": need[:120]})
             if not ok:
                 rr.violate(key, "%s builds a mask with `%s`, but %s is not established there: at the boundary the shift amount equals the word size (overflow: panic in debug builds, an empty/full mask in release)" % (b.key, show(F, n)[:100], need[:160]), F.loc(n), {"established": known[:12]})
+
+
+@rule("R11.5", props=["C11", "C06", "C05"], floor=2, title="the packed vectors extend their backend to a size computed from the new logical length only (never from an iterator's size hint or from a capacity)")
+def r11_5(ctx, rr):
+    """Words beyond ceil(len * width / BITS) are owned and reported by mem_size but hold nothing. A
+    `self.bits.resize(n, ..)` whose n derives from `size_hint()` or `capacity()` allocates them for good
+    (push only adds a word when the backend is exactly full)."""
+    F = ctx.F()
+    bodies = [b for b in F.fns() if not is_derived(b) and b.file.endswith(("bits/bit_vec.rs", "bits/bit_field_vec.rs"))]
+    for b in bodies:
+        hits = []
+
+        def on_node(W, n, K, hits=hits):
+            if n.get("k") == "MethodCall" and n["name"] in ("resize", "resize_with", "set_len") and n.get("args") and W.debug_depth == 0:
+                rt = W.T.term(n["recv"])
+                if not (rt[0] == "field" and rt[2] == "bits") and not mentions(rt, lambda x: x[0] == "field" and x[2] == "bits"):
+                    return
+                amt = W.expand(W.T.term(n["args"][0]))
+                bad = [x for x in subterms(amt) if x[0] == "call" and isinstance(x[1], str) and x[1].split("::")[-1] in ("size_hint", "capacity")]
+                hits.append((n, not bad, tshow(amt)[:120]))
+        Walker(F, b, on_node=on_node).run()
+        for n, ok, amt in hits:
+            rr.instances += 1
+            key = "%s:backend-grows-to-logical-size" % short_fn(b.key)
+            rr.ob(ok, key=key, sample={"fn": b.key, "call": show(F, n)[:80], "size": amt})
+            if not ok:
+                rr.violate(key, "%s sizes the backend with `%s`, which derives from an iterator's size hint or a capacity, not from the number of elements actually stored: words beyond ceil(len * width / BITS) stay allocated" % (b.key, amt), F.loc(n))
